@@ -10,6 +10,8 @@ use serde_json::json;
 pub enum Case {
     /// n x n matrix with the given zero/non-zero pattern (bit i*n+j), values from the generic table
     Pattern { n: usize, pattern: u32 },
+    /// as Pattern, with the non-zero entry (i, j) scaled by 1e-11 (tiny but not zero)
+    TinyEntry { n: usize, pattern: u32, i: usize, j: usize },
     /// diagonally dominant generic n x n matrix with rows permuted
     Permuted { n: usize, perm: Vec<usize> },
     /// tall m x n least-squares system
@@ -278,6 +280,33 @@ fn run_system(sys: &Sys, lsq: bool, heavy: bool, case: &Case, keyp: &str, idx: u
                     }
                 }
                 acc.outcome(&hash_f64s(&x1.to_vec()));
+                // the same system handed over in column-major memory order (a transposed view of the transposed
+                // array, and an array allocated in Fortran order) must give the same answer
+                let at = Array2::from_shape_fn((n, m), |(j, i)| sys.a[i][j]);
+                let af = {
+                    use ndarray::ShapeBuilder;
+                    let mut z = Array2::<f64>::zeros((m, n).f());
+                    for i in 0..m {
+                        for j in 0..n {
+                            z[[i, j]] = sys.a[i][j];
+                        }
+                    }
+                    z
+                };
+                for (nm, view) in [("transposed-view", at.t()), ("fortran-order", af.view())] {
+                    acc.eval();
+                    match guarded(|| (dsolve(&view, &b.view(), lsq), fdsolve(&view, &b.view(), lsq))) {
+                        Err(msg) => acc.violate(&format!("{}/f64/{}/panic", keyp, nm), idx, cj(), json!("a solution"), json!(msg)),
+                        Ok((y1, y2)) => {
+                            for (f, y) in [("dsolve", &y1), ("fdsolve", &y2)] {
+                                let yr: Vec<DR> = y.iter().map(|v| DR::leaf(0, *v, None)).collect();
+                                if let Err(e) = residual_ok(&ar, &yr, &br, lsq, false) {
+                                    acc.violate(&format!("{}/f64/{}/{}", keyp, f, nm), idx, cj(), json!("A x = b whatever the memory layout of A"), json!(e));
+                                }
+                            }
+                        }
+                    }
+                }
                 x_f64 = Some(x1.to_vec());
             }
         }
@@ -303,6 +332,19 @@ fn run_system(sys: &Sys, lsq: bool, heavy: bool, case: &Case, keyp: &str, idx: u
                     let xr: Vec<DR> = x.iter().map(|d| dr_of_number(&Number::Dual(d.clone()), &names)).collect();
                     if let Err(e) = residual_ok(&a_ref, &xr, &b_ref, lsq, false) {
                         acc.violate(&format!("{}/Dual/tag{}", keyp, mode), idx, cj(), json!("A x = b in value and every first derivative"), json!(e));
+                    }
+                }
+            }
+            if mode == 2 {
+                acc.eval();
+                let at = a.t().to_owned(); // row-major storage of A^T ; at.t() is A in column-major order
+                match guarded(|| dsolve(&at.t(), &b.view(), lsq)) {
+                    Err(msg) => acc.violate(&format!("{}/Dual/transposed-view/panic", keyp), idx, cj(), json!("a solution"), json!(msg)),
+                    Ok(x) => {
+                        let xr: Vec<DR> = x.iter().map(|d| dr_of_number(&Number::Dual(d.clone()), &names)).collect();
+                        if let Err(e) = residual_ok(&a_ref, &xr, &b_ref, lsq, false) {
+                            acc.violate(&format!("{}/Dual/transposed-view", keyp), idx, cj(), json!("A x = b whatever the memory layout of A"), json!(e));
+                        }
                     }
                 }
             }
@@ -436,6 +478,27 @@ pub fn check(case: &Case, idx: u64, acc: &mut Acc) {
                 acc.sample(|| json!({"Pattern": {"n": n, "pattern": pattern, "matrix": sys.a}}));
             }
         }
+        Case::TinyEntry { n, pattern, i, j } => {
+            let mut sys = pattern_system(*n, *pattern);
+            if sys.a[*i][*j] == 0.0 {
+                acc.skip();
+                return;
+            }
+            sys.a[*i][*j] *= 1e-11;
+            match cond(&sys.a) {
+                Some(c) if c < 1e4 => {}
+                _ => {
+                    acc.skip();
+                    return;
+                }
+            }
+            acc.nontrivial();
+            acc.bump("systems with a tiny non-zero entry");
+            run_system(&sys, false, false, case, &format!("tiny{}", n), idx, acc);
+            if idx % 211 == 0 {
+                acc.sample(|| serde_json::to_value(case).unwrap());
+            }
+        }
         Case::Permuted { n, perm } => {
             let base = dominant_system(*n);
             let sys = Sys { a: perm.iter().map(|p| base.a[*p].clone()).collect(), b: perm.iter().map(|p| base.b[*p]).collect() };
@@ -485,6 +548,17 @@ pub fn cases(tier: Tier) -> Vec<Case> {
     for n in 1..=3usize {
         for p in 0..(1u32 << (n * n)) {
             out.push(Case::Pattern { n, pattern: p });
+        }
+    }
+    for n in 2..=3usize {
+        for p in 0..(1u32 << (n * n)) {
+            for i in 0..n {
+                for j in 0..n {
+                    if p & (1 << (i * n + j)) != 0 && (n == 2 || i == j || (i + j) % 2 == 1) {
+                        out.push(Case::TinyEntry { n, pattern: p, i, j });
+                    }
+                }
+            }
         }
     }
     // 4 x 4: all 65 536 patterns (thorough); quick: the patterns with at most 10 non-zeros that are not block-trivial
@@ -545,7 +619,9 @@ pub fn run(ctx: &Ctx, replay_file: Option<String>) -> ! {
          under a generator set of permutations; tall m x n systems for all n <= 6 < m <= 12 with least squares. Each \
          system is solved with dsolve on f64, Dual, Dual2 and Number (float and dual entries mixed) and with fdsolve \
          (float matrix) for right-hand sides of each type, under four taggings (every entry its own variable incl. \
-         structurally zero entries, one shared variable, one variable per row, no variables on A). Oracle: the residual \
+         structurally zero entries, one shared variable, one variable per row, no variables on A); the float and \
+         row-tagged Dual systems are also handed over in column-major memory order (transposed view, Fortran-order \
+         array); 2x2 / 3x3 patterns are repeated with one non-zero entry scaled to 1e-11 (tiny pivots). Oracle: the residual \
          A x - b (A^T A x - A^T b for least squares) recomputed in a dense reference arithmetic vanishes in value, every \
          first and every second derivative component, each against its own scale sum |A||x| + |b|; the solution of a \
          row-permuted system equals that of the unpermuted one. Non-trivial: systems in which reference partial \
